@@ -75,8 +75,8 @@ func hasCR(t []byte) bool {
 	return false
 }
 
-// number classifies a decimal: strict form -?[0-9]+ that fits int64 is Valid; [+][0-9]+ and
-// out-of-range are Unspecified; everything else is non-numeric.
+// number classifies a decimal: strict form -?[0-9]+ that fits int64 is Valid; [+][0-9]+ is
+// Unspecified; out-of-range and everything else is malformed.
 func number(t []byte) (int64, int) {
 	if len(t) == 0 {
 		return 0, Malformed
@@ -100,9 +100,28 @@ func number(t []byte) (int64, int) {
 	}
 	v, err := strconv.ParseInt(string(t), 10, 64)
 	if err != nil {
-		return 0, Unspecified
+		// well-formed digits that do not fit an int64: no value can stand for them
+		return 0, Malformed
 	}
 	return v, Valid
+}
+
+// outOfRange: -?[0-9]+ that does not fit an int64.
+func outOfRange(t []byte) bool {
+	s := t
+	if len(s) > 0 && s[0] == '-' {
+		s = s[1:]
+	}
+	if len(s) == 0 {
+		return false
+	}
+	for _, c := range s {
+		if c < '0' || c > '9' {
+			return false
+		}
+	}
+	_, err := strconv.ParseInt(string(t), 10, 64)
+	return err != nil
 }
 
 func parseAt(b []byte, i int, depth int) (*Node, int, int, string) {
@@ -127,6 +146,9 @@ func parseAt(b []byte, i int, depth int) (*Node, int, int, string) {
 		}
 		v, ns := number(txt)
 		if ns != Valid {
+			if outOfRange(txt) {
+				return nil, Malformed, 0, "integer out of range"
+			}
 			return nil, Unspecified, 0, "odd integer"
 		}
 		return &Node{Kind: ':', Int: v}, Valid, next, ""
